@@ -52,15 +52,28 @@ func c16Mutations() []mutation {
 		{"key-empty", func(m *model.PushPullMessage, e *c16Env) { pack(m).Key = "" }},
 		{"key-other", func(m *model.PushPullMessage, e *c16Env) { pack(m).Key = "k2" }},
 		{"cp-zero", func(m *model.PushPullMessage, e *c16Env) { pack(m).CheckPoint = &model.CheckPoint{} }},
-		{"cp-ahead", func(m *model.PushPullMessage, e *c16Env) { pack(m).CheckPoint.Sseq += 5; pack(m).CheckPoint.Cseq += 5 }},
-		{"cp-sseq-ahead", func(m *model.PushPullMessage, e *c16Env) { pack(m).CheckPoint.Sseq += 7 }},
+		{"cp-ahead", func(m *model.PushPullMessage, e *c16Env) {
+			if cp := pack(m).CheckPoint; cp != nil {
+				cp.Sseq += 5
+				cp.Cseq += 5
+			}
+		}},
+		{"cp-sseq-ahead", func(m *model.PushPullMessage, e *c16Env) {
+			if cp := pack(m).CheckPoint; cp != nil {
+				cp.Sseq += 7
+			}
+		}},
 		{"cp-swapped", func(m *model.PushPullMessage, e *c16Env) {
-			pack(m).CheckPoint.Sseq, pack(m).CheckPoint.Cseq = pack(m).CheckPoint.Cseq, pack(m).CheckPoint.Sseq
+			if cp := pack(m).CheckPoint; cp != nil {
+				cp.Sseq, cp.Cseq = cp.Cseq, cp.Sseq
+			}
 		}},
 		{"cp-nil", func(m *model.PushPullMessage, e *c16Env) { pack(m).CheckPoint = nil }},
 		{"ops-gap", func(m *model.PushPullMessage, e *c16Env) {
 			for _, op := range pack(m).Operations {
-				op.ID.Seq += 2
+				if op.ID != nil {
+					op.ID.Seq += 2
+				}
 			}
 		}},
 		{"ops-repeat", func(m *model.PushPullMessage, e *c16Env) {
@@ -77,12 +90,16 @@ func c16Mutations() []mutation {
 		}},
 		{"ops-foreign-cuid", func(m *model.PushPullMessage, e *c16Env) {
 			for _, op := range pack(m).Operations {
-				op.ID.CUID = e.c1cuid
+				if op.ID != nil {
+					op.ID.CUID = e.c1cuid
+				}
 			}
 		}},
 		{"ops-old-seq", func(m *model.PushPullMessage, e *c16Env) {
 			for _, op := range pack(m).Operations {
-				op.ID.Seq = 1
+				if op.ID != nil {
+					op.ID.Seq = 1
+				}
 			}
 		}},
 		{"ops-nil-id", func(m *model.PushPullMessage, e *c16Env) {
@@ -114,7 +131,9 @@ func c16Mutations() []mutation {
 			p := r.dt.CreatePushPullPack()
 			p.Key, p.DUID, p.Option = "nokey", e.foreign, mode.bits
 			for _, op := range p.Operations {
-				op.ID.CUID = m.Cuid
+				if op.ID != nil {
+					op.ID.CUID = m.Cuid
+				}
 			}
 			m.PushPullPacks = []*model.PushPullPack{p}
 		}})
@@ -168,6 +187,7 @@ func c16Case(t *testing.T, p c16Params, names []string) (res c16Result) {
 		}
 		time.Sleep(time.Millisecond)
 		before := m.sys.DB.Dump()
+		storeBefore := m.readStore()
 		var resp *model.PushPullMessage
 		var err error
 		t0 := time.Now()
@@ -220,6 +240,33 @@ func c16Case(t *testing.T, p c16Params, names []string) (res c16Result) {
 		if v := m.checkLog(); v != nil {
 			v.Sig = v.Sig + ":after-mutation:" + res.Name
 			res.Viol = v
+			return
+		}
+		// Did the server store, as a well-formed push, an operation that no client ever issued (a forged sequence number, a
+		// forged author, an operation under another datatype)? Then the request was an ordinary push of a client that does
+		// not exist in this harness: the log invariants above still bind, but the real clients - whose own state does not
+		// contain these operations - are no longer "the correct clients that continue": nothing more is judged.
+		issued := map[string]string{} // datatype id | author | seq -> body
+		for _, op := range req.PushPullPacks[0].Operations {
+			issued[fmt.Sprintf("%s|%s|%d", req.PushPullPacks[0].DUID, op.ID.CUID, op.ID.Seq)] = string(op.Body)
+		}
+		forged := ""
+		for duid, dt := range m.readStore() {
+			old := 0
+			if o := storeBefore[duid]; o != nil {
+				old = len(o.ops)
+			}
+			for i, op := range dt.ops {
+				if i < old {
+					continue
+				}
+				if b, ok := issued[fmt.Sprintf("%s|%s|%d", duid, op.cuid, op.seq)]; !ok || b != op.body {
+					forged = fmt.Sprintf("%s #%d of %s at log position %d of %s", op.typ, op.seq, op.cuid, op.sseq, dt.key)
+				}
+			}
+		}
+		if forged != "" {
+			res.Outcome += " stored-a-forged-operation"
 			return
 		}
 		// an SDK client that receives the response: error handler, no panic, still usable
